@@ -82,6 +82,16 @@ func c07Progs() map[string]*c07Prog {
 			{Kind: "xor", Default: 1, Kids: []*gen.Block{gen.T(), gen.T()}, Conds: []*gen.Cond{{Kind: "const", Lit: false}, nil}, Ends: []bool{false, false}}}}))
 		out["xor-loop"] = &c07Prog{G: g, Answer: all}
 	}
+	// conditions that cannot be evaluated (an error trace, the flow counts as not taken), at an exclusive and at
+	// an inclusive gateway: whatever the expression engine does to produce that error ends with the instance
+	{
+		g := gen.Lower("p", gen.Seq(gen.T(), &gen.Block{Kind: "xor", Default: 2, Kids: []*gen.Block{gen.T(), gen.T(), gen.T()},
+			Conds: []*gen.Cond{{Kind: "fail"}, {Kind: "fail"}, nil}, Ends: []bool{false, false, false}}, gen.T()))
+		out["xor-cond-fails"] = &c07Prog{G: g, Answer: all}
+		g2 := gen.Lower("p", gen.Seq(gen.T(), &gen.Block{Kind: "or", Default: -1, Kids: []*gen.Block{gen.T(), gen.T(), gen.T()},
+			Conds: []*gen.Cond{{Kind: "fail"}, {Kind: "const", Lit: true}, {Kind: "fail"}}, Ends: []bool{false, false, false}}, gen.T()))
+		out["or-cond-fails"] = &c07Prog{G: g2, Answer: all}
+	}
 	// listening catch event
 	{
 		g := gen.NewGraph("p")
